@@ -529,6 +529,12 @@ def _c17_o2(W, ob):
     return _m.o2(W, ob)
 
 
+
+def _c03_o16(W, ob):
+    from . import c03 as _m
+    return _m.o16(W, ob)
+
+
 OBLIGATIONS = [
     ('C01.O1', 'rollback before simulate', 'In advance_rollback_frame every path to the new-frame input fetch passes a '
      'call that must-call check_simulation_consistency and the local input registration; adjust_gamestate runs exactly '
@@ -555,6 +561,7 @@ OBLIGATIONS = [
      'disconnect frame and every queue marker; adjust_gamestate loads that frame (sparse: last saved <= it).', o7),
     ('C01.O16', 'a peer is dropped by the timeout rule only (= C07.O1)', 'faults that end before the disconnect timeout must not cost a player: Disconnected is raised under last_recv_time + disconnect_timeout < now and nothing else, NetworkInterrupted under the notify delay; see C07.O1', _c07_o1),
     ('C01.O17', 'canonical handle order on both ends of the wire (= C17.O2)', 'the sender serialises its local players in ascending handle order and the receiver assigns the i-th decoded chunk to handles[i]: UdpProtocol::new sorts the handles it stores; see C17.O2', _c17_o2),
+    ('C01.O18', 'every field of every wire struct travels (= C03.O16)', 'see C03.O16', _c03_o16),
     ('C01.H', 'helpers the rules above rely on', 'the bodies of the helpers named by this property\'s rules compute what the rules assume (last_recv_frame, confirmed_input, player_input); see rules/helpers.py', helpers.bundle('last_recv_frame', 'confirmed_input', 'player_input', 'from_inputs')),
     ('C01.O14', 'received bytes decode to what was sent (= C14.O4)', 'see C14.O4: the reader of the run-length layer uses the writer\'s table', _c14_o4, {'deps': True}),
     ('C01.O15', 'wire configuration: reader = writer (= C03.O15)', 'see C03.O15', _c03_o15),
@@ -565,4 +572,6 @@ OBLIGATIONS = [
     ('C01.V', 'no unreviewed condition in the pinned helpers', 'for each helper whose body this property\'s rules pin (tables/condition_terms.json), the terms its path conditions are built from (fields, parameters, call results -- no constants, operators or local names) are a subset of the reviewed vocabulary: one more `if` in front of a pinned result (a lock that may time out, "only while an endpoint is running") is reported; see rules/vocab.py', vocab.rule_for('C01')),
     ('C01.S', 'state inventory', 'every field of the structs this property\'s rules read (tables/state.json) is known, and is written only by its reviewed writers (or helpers only they call): a new field is new state across calls -- a cache, a flag, a stored deadline -- that nothing has shown to stay in step; a new writer is a second place that resets, re-arms or moves something; see rules/inventory.py', inventory.state_rule_for('C01')),
     ('C01.K', 'call inventory', 'every reviewed call of a function that writes state (tables/call_edges.json, callers in the structs this property\'s rules read) is still made, directly or through helpers: a call deleted as redundant is reported; see rules/inventory.py', inventory.call_rule_for('C01')),
+    ('C01.A', 'expression inventory', 'every arithmetic expression handed to a call or stored in a field, and what every closure given to an iterator adaptor / collection method returns, is one of the reviewed expressions of its function (tables/expressions.json; linear / guard normal forms, no local names): a changed literal, operator, operand order, factor, predicate or sort key is reported; see rules/inventory.py', inventory.expr_rule_for('C01')),
+    ('C01.P', 'trait-impl inventory', 'each (type, trait) pair among PartialEq / Eq / Hash / Ord / Clone / Default / From / Deref / InputPredictor is derived or hand-written as listed in tables/impls.json: a derive replaced by a hand-written impl (equality by address only, a hash that ignores a field) changes which map keys collide and which inputs match with every call site unchanged; see rules/inventory.py', inventory.impl_rule),
 ]
